@@ -312,8 +312,20 @@ class _IdMap(dict):
 
 
 def check(ctx):
-    broken = C.proof_obligations(ctx)
+    # the reader theorems (Reader/*.v) are about peg.peg's own rule tree: regenerate it from the source first
+    import shutil
+    import tempfile
+    from . import c17
     bd = C.build_dir()
+    tmp = tempfile.mkdtemp(prefix="pegpp-")
+    pp_problems = []
+    try:
+        c17.regen_pegpeg(bd, tmp, pp_problems)
+    finally:
+        shutil.rmtree(tmp, ignore_errors=True)
+    for why, replay, found in pp_problems:
+        ctx.violation(why, replay, found=found)
+    broken = C.proof_obligations(ctx)
     model = B.Model()
     n = 300 if ctx.tier == "quick" else 5000
     reqs, mlines, expect = [], [], {}
